@@ -170,7 +170,7 @@ def _mk(name, exp, rev):
         kw['key_expiration'] = timedelta(days=365 * 40)
     elif exp == 'expired':
         kw['key_expiration'] = timedelta(days=300)
-    k = pool.pgpy_key(name, fresh=True, created=1420070400, uid='C17 %s %s' % (exp, rev), **kw)
+    k = pool.pgpy_key(name, fresh=True, created=1420070400, uid='C17 %s %s' % (exp, rev), sub='cv25519_0', **kw)
     if rev:
         k |= k.revoke(k)
     return k
@@ -223,6 +223,30 @@ def _real(ctx, d, pgpy, SI):
             ctx.fail('real-verdict-differs-from-model', {'case': d, 'subject': label, 'got': bool(sv), 'expected': expect, 'issues': issues})
         if not correct and good:
             ctx.fail('wrong-signature-listed-good', {'case': d, 'subject': label})
+    # a signature the key cannot have made, relabelled (unhashed issuer) as coming from each of its components in turn - the encryption-only
+    # subkey among them: whatever happens, it is never an empty (and therefore truthy) result, and never listed as good
+    from .C01 import _rewrite_issuer
+    forged = other.sign(doc)
+    comps = [('primary', bytes.fromhex(str(pub.fingerprint)[-16:]))] + [('subkey ' + kid, bytes.fromhex(kid)) for kid in pub.subkeys]
+    for label, kid in comps:
+        fs = pgpy.PGPSignature.from_blob(_rewrite_issuer(bytes(forged), kid))
+        ctx.count('real_verdicts')
+        ctx.count('relabelled_forgeries')
+        ctx.count('evaluations')
+        for subj_label, subj in (('document', doc), ('message', None)):
+            try:
+                if subj is None:
+                    m_ = pgpy.PGPMessage.new(doc, compression=pgpy.constants.CompressionAlgorithm.Uncompressed)
+                    m_ |= fs
+                    sv = pub.verify(m_)
+                else:
+                    sv = pub.verify(subj, fs)
+            except Exception:
+                ctx.outcome('relabelled_forgery_refused_with_exception')
+                continue
+            good, bad = check_partition(ctx, sv, {'case': d, 'subject': 'forgery relabelled as ' + label})
+            if bool(sv) or good or len(sv) != 1:
+                ctx.fail('wrong-signature-listed-good', {'case': d, 'subject': subj_label, 'relabelled_as': label, 'truthy': bool(sv), 'entries': len(sv), 'good': len(good)})
     ctx.nontrivial(d)
     if len(ctx.samples) < 5:
         ctx.sample({'case': d, 'verdict_on_document': bool(pub.verify(doc, sig)), 'is_expired': pub.is_expired})
